@@ -29,6 +29,7 @@
 #include <xercesc/util/RuntimeException.hpp>
 #include <xercesc/util/TransService.hpp>
 #include <xercesc/util/XMLEBCDICTranscoder.hpp>
+#include <xercesc/util/VerifHooks.hpp>
 #include <xercesc/util/XMLString.hpp>
 #include <xercesc/util/Janitor.hpp>
 
@@ -123,6 +124,7 @@ XMLReader::XMLReader(const  XMLCh* const          pubId
     , fMemoryManager(manager)
 {
     setXMLVersion(version);
+    VERIF_EV("RdrNew", "r,type,from,src,lw", (long long)(size_t)this, (long long)fType, (long long)fRefFrom, (long long)fSource, (long long)fLowWaterMark);
 
     try
     {
@@ -171,6 +173,7 @@ XMLReader::XMLReader(const  XMLCh* const          pubId
     //  setEncoding() or we get a call to refreshCharBuffer() and no
     //  transcoder has been set yet.
     //
+    VERIF_EV("RdrInit", "r,ri,ra,ci,ca,enc,forced", (long long)(size_t)this, (long long)fRawBufIndex, (long long)fRawBytesAvail, (long long)fCharIndex, (long long)fCharsAvail, (long long)fEncoding, (long long)fForcedEncoding);
 }
 
 
@@ -214,6 +217,7 @@ XMLReader::XMLReader(const  XMLCh* const          pubId
     , fMemoryManager(manager)
 {
     setXMLVersion(version);
+    VERIF_EV("RdrNew", "r,type,from,src,lw", (long long)(size_t)this, (long long)fType, (long long)fRefFrom, (long long)fSource, (long long)fLowWaterMark);
 
     try
     {
@@ -362,6 +366,7 @@ XMLReader::XMLReader(const  XMLCh* const          pubId
         fCharOfsBuf[fCharsAvail] = 0;
         fCharBuf[fCharsAvail++] = chSpace;
     }
+    VERIF_EV("RdrInit", "r,ri,ra,ci,ca,enc,forced", (long long)(size_t)this, (long long)fRawBufIndex, (long long)fRawBytesAvail, (long long)fCharIndex, (long long)fCharsAvail, (long long)fEncoding, (long long)fForcedEncoding);
 }
 
 
@@ -405,6 +410,7 @@ XMLReader::XMLReader(const  XMLCh* const          pubId
     , fMemoryManager(manager)
 {
     setXMLVersion(version);
+    VERIF_EV("RdrNew", "r,type,from,src,lw", (long long)(size_t)this, (long long)fType, (long long)fRefFrom, (long long)fSource, (long long)fLowWaterMark);
 
     try
     {
@@ -475,11 +481,13 @@ XMLReader::XMLReader(const  XMLCh* const          pubId
         fCharOfsBuf[fCharsAvail] = 0;
         fCharBuf[fCharsAvail++] = chSpace;
     }
+    VERIF_EV("RdrInit", "r,ri,ra,ci,ca,enc,forced", (long long)(size_t)this, (long long)fRawBufIndex, (long long)fRawBytesAvail, (long long)fCharIndex, (long long)fCharsAvail, (long long)fEncoding, (long long)fForcedEncoding);
 }
 
 
 XMLReader::~XMLReader()
 {
+    VERIF_EV("RdrDel", "r", (long long)(size_t)this);
     cleanup();
 }
 
@@ -538,6 +546,7 @@ bool XMLReader::refreshCharBuffer()
     // If we are full, then don't do anything.
     if (spareChars == kCharBufSize)
         return true;
+    VERIF_EV("CRB", "r,ci,ca", (long long)(size_t)this, (long long)fCharIndex, (long long)fCharsAvail);
 
     //
     //  If no transcoder has been created yet, then we never saw the
@@ -655,6 +664,7 @@ bool XMLReader::refreshCharBuffer()
         }
     }
 
+    VERIF_EV("CRE", "r,spare,ca,nomore,trail", (long long)(size_t)this, (long long)spareChars, (long long)fCharsAvail, (long long)fNoMore, (long long)fSentTrailingSpace);
     return (fCharsAvail != 0);
 }
 
@@ -1462,6 +1472,7 @@ bool XMLReader::setEncoding(const XMLCh* const newEncoding)
     fEncoding = newBaseEncoding;
 
     // Looks ok to us
+    VERIF_EV("EncSet", "r,enc", (long long)(size_t)this, (long long)fEncoding);
     return true;
 }
 
@@ -1914,6 +1925,7 @@ void XMLReader::refreshRawBuffer()
     //  since any trailing data was copied down to the start.
     //
     fRawBufIndex = 0;
+    VERIF_EV("Raw", "r,left,ra", (long long)(size_t)this, (long long)bytesLeft, (long long)fRawBytesAvail);
 }
 
 
@@ -1972,6 +1984,7 @@ XMLReader::xcodeMoreChars(          XMLCh* const            bufToFill
             needMode = true;
         else
             fRawBufIndex += bytesEaten;
+        VERIF_EV("Xc", "r,max,done,eaten,ri,ra", (long long)(size_t)this, (long long)maxChars, (long long)charsDone, (long long)bytesEaten, (long long)fRawBufIndex, (long long)fRawBytesAvail);
     }
 
     return charsDone;
